@@ -78,7 +78,7 @@ def arm_paths(fn, entry, stop_blocks, limit=4000):
             c = fn.expr(t["a"], 8, stop={"named"})
             for v, tb in t["targets"]:
                 nxt(tb, conds + [(c, v)], effs, ret, onpath)
-            nxt(t["otherwise"], conds + [(c, "else")], effs, ret, onpath)
+            nxt(t["otherwise"], conds + [(c, ("else", tuple(v for v, tb in t["targets"])))], effs, ret, onpath)
             return
         if k == "call":
             if t["dest"]["l"] == 0 and place_is_local(t["dest"]):
@@ -112,7 +112,7 @@ def summarise(paths):
     """set of (relevant condition outcomes, status effect, counter effect, end kind)"""
     res = set()
     for conds, effs, end in paths:
-        rc = tuple(sorted((expr_str(c, 100), str(v)) for c, v in conds if relevant(c)))
+        rc = tuple(sorted((expr_str(c, 100), "else" if isinstance(v, tuple) else str(v)) for c, v in conds if relevant(c)))
         st = tuple(e[1] for e in effs if e[0] == "status")
         stores = tuple((e[1], show(lin(e[2]))) for e in effs if e[0] == "store")
         calls = tuple(short(e[1]) for e in effs if e[0] == "call")
@@ -225,77 +225,135 @@ def run(ctx):
     got = {}
     for vi, tb in targets.items():
         got[vnames[vi]] = summarise(arm_paths(pz, tb, stop))
-    spec_ok = {}
+    # roles: which Status variant each resuming command installs (found from the dispatcher, so a renamed variant keeps its role)
+    disp4, sw_bb4, arms4, sp4, selfp4 = dbg.dispatcher(ctx)
+    role_of = {}
+    for cmd, role in (("Continue", "continue"), ("StepOver", "stepover"), ("StepInto", "stepinto"), ("StepOut", "finish")):
+        ctx.need(cmd in arms4, "`%s` arm of the dispatcher" % cmd)
+        reg4 = dbg.arm_region(disp4, arms4[cmd])
+        vs = set()
+        for b4, i4, s4 in disp4.assigns():
+            if b4 in reg4 and [e.get("n") for e in s4["p"].get("pr", []) if isinstance(e, dict) and "f" in e][-1:] == ["status"]:
+                e4 = disp4.rvalue_expr(s4["r"], 4)
+                if e4[0] == "agg" and e4[1][0] == "adt":
+                    vs.add(e4[1][2])
+                else:
+                    src4 = op_local(s4["r"].get("a", {})) if s4["r"]["k"] == "use" else None
+                    vs |= {s5["r"].get("variant") for b5, i5, s5 in disp4.assigns() if src4 is not None and place_is_local(s5["p"]) and s5["p"]["l"] == src4
+                           and s5["r"]["k"] == "agg" and s5["r"].get("adt") == STATUS}
+        if len(vs) == 1:
+            role_of[vs.pop()] = role
+    ctx.need(len(role_of) == 4, "the four resuming commands install four distinct Status variants (found %s)" % role_of)
+    idx_of = {v: k for k, v in vnames.items()}
 
-    def P(**kw):
-        return kw
+    INSTRS = {"none": ("variant", "None", "core::option::Option", ()),
+              "ret": ("variant", "Some", "core::option::Option", (("variant", "Return", "lace::debugger::SignificantInstr", ()),)),
+              "halt": ("variant", "Some", "core::option::Option", (("variant", "Halt", "lace::debugger::SignificantInstr", ()),))}
 
-    def match(name, summary, rows):
-        """rows: list of predicates over (conds, status, stores, calls, end); each summary row must satisfy exactly one"""
-        problems = []
-        used = [0] * len(rows)
-        for row in sorted(summary):
-            hits = [i for i, pr in enumerate(rows) if pr(*row)]
-            if len(hits) != 1:
-                problems.append(row)
+    def run_arm(paths, env):
+        """outcomes of the arm under a concrete (count, at_ret, instr): every path whose evaluable conditions hold"""
+        def sub(e):
+            if (e[0] in ("local", "arg") and e[2] == "count") or (e[0] == "field" and e[2] == "count" and e[1][0] == "downcast"):
+                return env["count"]
+            if (e[0] in ("local", "arg") and e[2] == "return_addr") or (e[0] == "field" and e[2] == "return_addr" and e[1][0] == "downcast"):
+                return 0x4000
+            if e[0] == "call" and str(e[1]).endswith("RunState::pc"):
+                return 0x4000 if env["at_ret"] else 0x3000
+            if e[0] in ("local", "arg") and e[2] == "instr":
+                return INSTRS[env["instr"]]
+            if e[0] == "local" and e[1] not in env.setdefault("_open", set()):
+                # some other named temporary (`let remaining = ..`): look through it
+                env["_open"].add(e[1])
+                try:
+                    full = pz.local_expr(e[1], 10)
+                    if full != e:
+                        return formula.evaluate(kit.resolve_promoteds(prog, full), {"subst": sub, "prog": prog})
+                except (formula.Unknown, formula.Overflow):
+                    return None
+                finally:
+                    env["_open"].discard(e[1])
+            return None
+        outs = set()
+        for conds, effs, end in paths:
+            ok_path = True
+            for c, v in conds:
+                try:
+                    val = formula.evaluate(kit.resolve_promoteds(prog, c), {"subst": sub, "prog": prog})
+                except (formula.Unknown, formula.Overflow):
+                    continue                      # a condition on something else (output mode, statistics): either way
+                if isinstance(val, bool):
+                    val = 1 if val else 0
+                if isinstance(v, tuple):
+                    if val in v[1]:
+                        ok_path = False
+                elif val != v:
+                    ok_path = False
+                if not ok_path:
+                    break
+            if not ok_path:
+                continue
+            st = tuple(e[1] for e in effs if e[0] == "status")
+            stores = []
+            for e in effs:
+                if e[0] == "store":
+                    try:
+                        stores.append((e[1], formula.evaluate(e[2], {"subst": sub, "prog": prog})))
+                    except (formula.Unknown, formula.Overflow):
+                        stores.append((e[1], "?"))
+            if end[0] == "return":
+                ek = "Proceed" if end[1] is not None and "Proceed" in expr_str(end[1]) else "return " + (expr_str(end[1]) if end[1] else "?")
+            elif end[0] in ("goto", "loop"):
+                ek = "redispatch"
             else:
-                used[hits[0]] += 1
-        for i, u in enumerate(used):
-            if u == 0:
-                problems.append("spec row %d has no counterpart" % i)
-        return problems
+                ek = end[0]
+            outs.add((st, tuple(stores), ek))
+        return outs
 
-    def has(conds, frag, val):
-        return any(frag in c and v == val for c, v in conds)
+    def want(role, env):
+        if role == "continue":
+            return ((), (), "Proceed")
+        if role == "stepinto":
+            return ((), (("count", env["count"] - 1),), "Proceed") if env["count"] > 0 else (("WaitForAction",), (), "Proceed")
+        if role == "stepover":
+            return (("WaitForAction",), (), "redispatch") if env["at_ret"] else ((), (), "Proceed")
+        if role == "finish":
+            return (("WaitForAction",), (), "Proceed") if env["instr"] == "ret" else ((), (), "Proceed")
 
-    rows = {
-        "Continue": [lambda c, st, so, ca, e: not c and not st and not so and e.startswith("return") and "Proceed" in e],
-        "StepInto": [
-            lambda c, st, so, ca, e: has(c, "count", "else") and has(c, ">", "else") and not st and len(so) == 1 and so[0][0] == "count" and so[0][1] in ("count - 1", "*count - 1") and "Proceed" in e,
-            lambda c, st, so, ca, e: has(c, "count", "0") and st == ("WaitForAction",) and not so and "Proceed" in e,
-        ],
-        "Finish": [
-            lambda c, st, so, ca, e: has(c, "instr", "else") and st == ("WaitForAction",) and not so and "Proceed" in e,
-            lambda c, st, so, ca, e: has(c, "instr", "0") and not st and not so and "Proceed" in e,
-        ],
-        "StepOver": [
-            lambda c, st, so, ca, e: has(c, "return_addr", "else") and st == ("WaitForAction",) and not so and e == "goto",
-            lambda c, st, so, ca, e: has(c, "return_addr", "0") and not st and not so and "Proceed" in e,
-        ],
-        "WaitForAction": [
-            lambda c, st, so, ca, e: any("run_command" in x for x in ca) and has(c, "discr", "1") and e.startswith("return") and not st,
-            lambda c, st, so, ca, e: any("run_command" in x for x in ca) and has(c, "discr", "else") and e == "goto" and not st,
-        ],
-    }
-    for name in ("Continue", "StepInto", "Finish", "StepOver", "WaitForAction"):
-        ctx.need(name in got, "arm for Status::%s" % name)
-        ctx.instance(1, {"state": name, "transitions": [list(map(str, r)) for r in sorted(got[name])][:4]})
-        # normalise the condition on PartialEq::eq calls / comparisons: keep rows as they are
-        probs = match(name, got[name], rows[name])
-        ctx.oblig(not probs, None)
-        if probs:
-            ctx.violation("transition|%s" % name, sp_file_line(pz.term(targets[[k for k, v in vnames.items() if v == name][0]]).get("sp")),
-                          "the `%s` state of the stepper does not follow its specification; unexpected transition(s): %s"
-                          % (name, [str(p)[:300] for p in probs[:3]]))
-    # conditions: StepOver compares the current pc with return_addr; Finish compares instr with Some(Return); StepInto tests count > 0
-    def conds_of(name):
-        return {c for row in got[name] for c, v in row[0]}
-    cso = " ".join(conds_of("StepOver"))
-    ok = "pc(" in cso and "return_addr" in cso and "==" in cso
-    ctx.oblig(ok, {"StepOver condition": cso}, "pc == return_addr")
-    if not ok:
-        ctx.violation("stepover-cond", pz.file_line(), "`step` pauses on `%s`, not on PC == return address" % cso)
-    cfi = [kit.resolve_promoteds(prog, c) for row in arm_paths(pz, targets[[k for k, v in vnames.items() if v == "Finish"][0]], stop) for c, v in row[0] if relevant(c)]
-    sfi = " ".join(expr_str(c) for c in cfi)
-    ok = "Return" in sfi and "instr" in sfi
-    ctx.oblig(ok, {"Finish condition": sfi[:160]}, "instr == Some(Return)")
-    if not ok:
-        ctx.violation("finish-cond", pz.file_line(), "`step out` pauses on `%s`, not on RET/RETS" % sfi[:200])
-    csi = " ".join(conds_of("StepInto"))
-    ok = "count" in csi and "> 0" in csi.replace("0x0", "0")
-    ctx.oblig(ok, {"StepInto condition": csi}, "count > 0")
-    if not ok:
-        ctx.violation("stepinto-cond", pz.file_line(), "`step into` tests `%s`, not counter > 0" % csi)
+    for vname, role in sorted(role_of.items(), key=lambda kv: kv[1]):
+        ctx.need(vname in idx_of and idx_of[vname] in targets, "arm for Status::%s in the pausing function" % vname)
+        paths = arm_paths(pz, targets[idx_of[vname]], stop)
+        ctx.instance(1, {"state": vname, "role": role, "paths": len(paths)})
+        bad = None
+        ncell = 0
+        for count in (0, 1, 2, 65535):
+            for at_ret in (0, 1):
+                for instr in ("none", "ret", "halt"):
+                    env = {"count": count, "at_ret": at_ret, "instr": instr}
+                    ncell += 1
+                    outs = run_arm(paths, env)
+                    w = want(role, env)
+                    if outs != {w}:
+                        bad = ({k: v for k, v in env.items() if not k.startswith("_")}, sorted(outs), w)
+                        break
+                if bad:
+                    break
+            if bad:
+                break
+        ctx.oblig(bad is None, {"state": vname, "cells": ncell}, "transition function == specification on every (count, at return address, instruction class) cell")
+        if bad:
+            ctx.violation("transition|%s" % role, sp_file_line(pz.term(targets[idx_of[vname]]).get("sp")),
+                          "the `%s` state (installed by the %s command) with %s does %s; the specification says %s (status writes, counter store, then Proceed / re-dispatch)"
+                          % (vname, role, bad[0], bad[1], bad[2]))
+    # the waiting state reads a command: returns the action if one is raised, otherwise dispatches again
+    wname = "WaitForAction"
+    ctx.need(wname in idx_of and idx_of[wname] in targets, "arm for Status::WaitForAction")
+    wp = summarise(arm_paths(pz, targets[idx_of[wname]], stop))
+    ctx.instance(1)
+    okw = all(any("run_command" in x for x in ca) and not st for c, st, so, ca, e in wp) and {("goto" if e in ("goto", "loop") else "return") for c, st, so, ca, e in wp if True} <= {"goto", "return"} \
+        and any(e.startswith("return") for c, st, so, ca, e in wp) and any(e in ("goto", "loop") for c, st, so, ca, e in wp)
+    ctx.oblig(okw, {"WaitForAction": sorted(e for c, st, so, ca, e in wp)}, "run_command, then return its action or dispatch again")
+    if not okw:
+        ctx.violation("transition|wait", sp_file_line(pz.term(targets[idx_of[wname]]).get("sp")), "the waiting state does not read a command and then either return its action or dispatch again: %s" % sorted(wp)[:3])
     ctx.finish_rule()
 
     # ------------------------------------------------------------------ R5
@@ -303,42 +361,22 @@ def run(ctx):
     ex = [b for b, t, c in rl.calls() if c == EXEC]
     pzb = [b for b, t, c in rl.calls() if c == pz.name]
     ctx.need(len(ex) == 1 and len(pzb) == 1, "execute / pausing call in the run loop")
-    # the HALT test: PartialEq::eq against Ok(Halt)
-    tests = []
-    for b, t, c in rl.calls():
-        if c and c.endswith("PartialEq>::eq"):
-            vals = [kit.operand_value_expr(prog, rl, a, 8) for a in t["args"]]
-            s = " ".join(expr_str(v) for v in vals)
-            if "Halt" in s and "try_from" in s:
-                nb = t["t"]
-                tt = rl.term(nb)
-                if tt["k"] == "switch" and op_local(tt["a"]) == t["dest"]["l"]:
-                    tg = {v: x for v, x in tt["targets"]}
-                    tests.append((b, nb, tt["otherwise"] if 0 in tg else tg.get(1), tg.get(0, tt["otherwise"]), s))
-    ctx.need(len(tests) == 1, "`word at PC == HALT` test in the run loop (found %d)" % len(tests))
-    tb, swb, ttrue, tfalse, desc = tests[0]
-    ctx.instance(1, {"halt test": desc[:200]})
-    ok = "mem" in desc and "pc" in desc
-    ctx.oblig(ok, None)
+    # the HALT test of the run loop: after a Proceed, a branch on "the word at the PC is HALT" whose HALT side cannot reach execute in this cycle
+    pt_, exb_, skips_ = dbg.run_loop_skips(ctx, rl)
+    halts = [x for x in skips_ if x[1] == "halt"]
+    ctx.instance(1, {"halt test": [expr_str(x[2], 160) for x in halts]})
+    ok = len(halts) == 1
+    ctx.oblig(ok, {"run loop": "one HALT test between Proceed and execute"}, "classification of the skipping branches")
     if not ok:
-        ctx.violation("halt-test-operand", sp_file_line(rl.term(tb).get("sp")), "the run loop's HALT test does not look at the word at the current PC: %s" % desc[:200])
-    lps = kit.loops(rl)
-    ctx.need(lps, "run loop")
-    head = max(lps, key=lambda h: len(lps[h][0]))
-    ok = ex[0] not in rl.reachable(ttrue, avoid={head})
-    ctx.oblig(ok, {"HALT true edge": "leads back to the loop head only"}, "execute unreachable before the next iteration")
-    if not ok:
-        ctx.violation("halt-true-executes", sp_file_line(rl.term(swb).get("sp")), "after finding HALT at PC the run loop can still reach execute in the same iteration")
-    # Proceed -> execute must pass the test
-    act = list(kit.discr_switches(rl, "lace::debugger::Action"))
-    ctx.need(act, "match on Action in the run loop")
-    ab, place, atargets, aoth = act[0]
-    pidx = [v["idx"] for v in prog.adt("lace::debugger::Action")["variants"] if v["name"] == "Proceed"][0]
-    ok = rl.must_pass(atargets[pidx], ex, [swb])
-    ctx.instance(1)
-    ctx.oblig(ok, {"Proceed -> execute": "passes the HALT test"}, "must-pass")
-    if not ok:
-        ctx.violation("proceed-skips-halt-test", sp_file_line(rl.term(ex[0]).get("sp")), "a Proceed from the debugger can reach execute without the HALT test")
+        ctx.violation("halt-test-missing", rl.file_line(), "between the debugger's Proceed and execute the run loop has %d test(s) of `word at PC is HALT` (expected one): "
+                      "HALT could be executed while the debugger is attached" % len(halts))
+    else:
+        swb = halts[0][0]
+        ok = rl.must_pass(pt_, [exb_], [swb])
+        ctx.instance(1)
+        ctx.oblig(ok, {"Proceed -> execute": "passes the HALT test"}, "must-pass")
+        if not ok:
+            ctx.violation("proceed-skips-halt-test", sp_file_line(rl.term(exb_).get("sp")), "a Proceed from the debugger can reach execute without the HALT test")
     # every resuming arm passes check_halt before changing the status
     halt_checks = [n for n, f in prog.fns.items() if f.bkind == "fn" and n.startswith("lace::debugger::Debugger::")
                    and f.d.get("output") == "core::option::Option<()>" and "SignificantInstr" in " ".join(f.d.get("inputs", []))]
@@ -376,7 +414,8 @@ def run(ctx):
 
     # ------------------------------------------------------------------ R6
     ctx.rule("C10.R6", "each resuming command installs exactly its own stepping state", floor=4)
-    WANT = {"Continue": "Continue", "StepOver": "StepOver", "StepInto": "StepInto", "StepOut": "Finish"}
+    # which variant belongs to which command was derived for R4 (role_of); a command that may install two different states has no entry there
+    WANT = {{"continue": "Continue", "stepover": "StepOver", "stepinto": "StepInto", "finish": "StepOut"}[r]: v for v, r in role_of.items()}
     for arm, want in sorted(WANT.items()):
         ctx.need(arm in arms, "`%s` arm of the dispatcher" % arm)
         region = dbg.arm_region(disp, arms[arm])
